@@ -93,7 +93,10 @@ impl ReturnType for UnaryOperation {
     fn return_type(&self) -> Type {
         let return_type = self.instruction.return_type();
         match self.op {
-            UnaryOperator::Sum | UnaryOperator::Product => return_type.iter_element().unwrap(),
+            // an operand of type ! never yields, so neither does its sum or product
+            UnaryOperator::Sum | UnaryOperator::Product => {
+                return_type.iter_element().unwrap_or(Type::Never)
+            }
             UnaryOperator::Not | UnaryOperator::UnaryMinus => return_type,
             UnaryOperator::Indirection => indirection::return_type(return_type),
             UnaryOperator::FunctionCall => return_type.return_type().unwrap(),
